@@ -60,6 +60,29 @@ TableVec(n, hasy, com, p, fp, nf) ==
       exp |-> [n |-> n, x |-> x, y |-> y, flags |-> [i \in 1..n |-> StoredFlag(fl[i])],
                hasyerr |-> hasy, yerr |-> IF hasy THEN e ELSE <<>>]]
 
+\* ---- hand-written table files ---------------------------------------------------------
+\* What Table::Load accepts besides its own output (table.cc: "remove comments and xmgrace stuff",
+\* "skip empty lines", "if first line is only 1 token, it's the size"): '#' comments (whole line or
+\* after the data), '@' xmgrace lines, blank lines, blanks or tabs between columns, an optional
+\* first data line holding the number of rows, rows with or without a flag (default 'i').
+\* The harness prints the lines below; the rows must come back unchanged whatever the decoration.
+TextVec(n, p, deco) ==
+  LET com == deco[1]  xm == deco[2]  size == deco[3]  blank == deco[4]  tabs == deco[5]  trail == deco[6]
+      x == [i \in 1..n |-> Num(p, i, 1, 10)]
+      y == [i \in 1..n |-> Num(p, i, 2, 10)]
+      fl == [i \in 1..n |-> IF i % 2 = 1 THEN FlagSet[(i % 3) + 1] ELSE "_"]    \* "_": no flag column
+      Row(i) == (IF blank /\ i > 1 THEN <<[t |-> "blank"]>> ELSE <<>>) \o
+                (IF com /\ i = 2 THEN <<[t |-> "comment"]>> ELSE <<>>) \o
+                <<[t |-> "data", x |-> x[i], y |-> y[i], flag |-> fl[i], tab |-> tabs, trail |-> trail /\ i % 2 = 0]>>
+      RECURSIVE Rows(_)
+      Rows(i) == IF i > n THEN <<>> ELSE Row(i) \o Rows(i + 1)
+  IN [kind |-> "tabletext",
+      inp |-> (IF com THEN <<[t |-> "comment"]>> ELSE <<>>) \o
+              (IF xm THEN <<[t |-> "xmgrace"], [t |-> "xmgrace2"]>> ELSE <<>>) \o
+              (IF size THEN <<[t |-> "size", n |-> n]>> ELSE <<>>) \o Rows(1) \o
+              (IF blank THEN <<[t |-> "blank"]>> ELSE <<>>),
+      exp |-> [n |-> n, x |-> x, y |-> y, flags |-> [i \in 1..n |-> IF fl[i] = "_" THEN "i" ELSE fl[i]]]]
+
 \* ---- matrices ---------------------------------------------------------------------
 Mat(r, c, p) == [i \in 1..r |-> [j \in 1..c |-> Num(p, i, j, 8)]]
 \* imcio_write_matrix: one line per row (or per selected index, square sub-matrix)
@@ -108,6 +131,7 @@ Vectors ==
      { TableVec(n, hy, com, p, fp, 0) : n \in TableN, hy \in BOOLEAN, com \in BOOLEAN, p \in Pids, fp \in 0..1 }
   \* non-finite y / yerr with every flag (incl. blank and NUL) on every row
   \cup { TableVec(n, hy, FALSE, p, fp, nf) : n \in TableN \ {0}, hy \in BOOLEAN, p \in {0}, fp \in 0..4, nf \in 1..3 }
+  \cup { TextVec(n, p, d) : n \in {1, 3}, p \in {0, 2}, d \in [1..6 -> BOOLEAN] }
   \cup UNION { { MatrixVec(r, c, p, sel) : sel \in Sels(r, c) } : r \in RowSet, c \in ColSet, p \in Pids }
   \cup UNION { { DsVec(n, p, sel) : sel \in ({<<>>} \cup IF n >= 3 THEN {<<1, 3>>} ELSE {}) } : n \in TableN \ {0}, p \in Pids }
   \cup { IndexVec(b1, b2, two) : b1 \in BlockSets, b2 \in BlockSets, two \in BOOLEAN }
